@@ -881,3 +881,33 @@ pub fn run(opts: &Opts) -> Run {
     cx.run.samples.push(format!("{} requests; e.g. `{}` -> `{}`", n_cases, &cx.run.cases[300.min(n_cases - 1)][..cx.run.cases[300.min(n_cases - 1)].len().min(120)], &cx.run.impl_out[300.min(n_cases - 1)][..cx.run.impl_out[300.min(n_cases - 1)].len().min(120)]));
     run
 }
+
+/// Re-execute one `huf canenc A B` / `huf build HEX` request on the real code (with the request's oracle).
+pub fn replay_line(run: &mut Run, line: &str) -> Option<String> {
+    let t: Vec<&str> = line.split(' ').collect();
+    match t.as_slice() {
+        ["huf", "canenc", a, b] => {
+            let a: Vec<usize> = a.split(',').filter_map(|x| x.parse().ok()).collect();
+            let b: Vec<usize> = b.split(',').filter_map(|x| x.parse().ok()).collect();
+            let (a2, b2) = (a.clone(), b.clone());
+            let r = guarded(move || {
+                let ta = HufEncTable::build_from_counts(&a2);
+                let tb = HufEncTable::build_from_counts(&b2);
+                ta.can_encode(&tb)
+            });
+            run.oracle_checks += 1;
+            if let Ok(Some(_)) = &r {
+                if let Some(i) = (0..b.len()).find(|&i| b[i] > 0 && a.get(i).copied().unwrap_or(0) == 0) {
+                    run.fail("C13", "canenc_uncovered", format!("can_encode says the table built from counts {:?} can be reused for literals with counts {:?}, but it has no code for value {}", a, b, i), line.to_string());
+                }
+            }
+            Some(ok_or_fault(r, |o| o.map(|n| n.to_string()).unwrap_or("none".into())))
+        }
+        ["huf", "build", h] => {
+            let src = unhex(h)?;
+            let mut tb = DecTable::new();
+            Some(build_answer(&mut tb, &src))
+        }
+        _ => None,
+    }
+}
